@@ -170,6 +170,13 @@ func newDoc(r *rand.Rand) *sbom.Document {
 	d := sbom.NewDocument()
 	d.Metadata.Id = pick(r, []string{"urn:uuid:3e671687-395b-41f5-a30f-a58921a69b79", "urn:uuid:11111111-2222-3333-4444-555555555555"})
 	d.Metadata.Version = fmt.Sprint(1 + r.Intn(5))
+	if r.Intn(4) == 0 {
+		// document-level metadata beyond the listed properties: observed, never judged as a violation
+		d.Metadata.Comment = "document comment"
+		d.Metadata.Date = tsOf(r)
+		d.Metadata.Authors = []*sbom.Person{{Name: "Jane Author", Email: "jane@example.org"}, {Name: "Author Org", IsOrg: true}}
+		d.Metadata.Tools = []*sbom.Tool{{Name: "toolA", Version: "1.2", Vendor: "V"}, {Name: "toolB"}}
+	}
 	return d
 }
 
